@@ -221,6 +221,12 @@ def probe_portfolio(spec):
                     except Exception:
                         iv.append(None)
                 sd['interval_values'] = iv
+                # the same split problem optimised once more: same result
+                try:
+                    r_again = ops.optimize()
+                    sd['again'] = r_again if isinstance(r_again, str) else {'value': float(r_again.value), 'x': [float(v) for v in r_again.x]}
+                except Exception as e:
+                    sd['again'] = 'crash: ' + repr(e)[:200]
                 sd['duals'] = dump_duals(res.duals)
                 try:
                     sd['out'] = tables(portf2, ops, res)
@@ -623,7 +629,9 @@ def probe_fixwindow(spec):
         steps = [t for t in range(T) if I[t]]
     elif fx['mode'] == 'index':
         steps = sorted(set(int(v) for v in rs.randint(0, T, size=max(1, T // 2))))
-        I = list(steps)
+        if int(fx.get('k', 0)) % 3 == 0:
+            steps = [0]                   # rolling optimisation: only the first, realised step
+        I = list(steps) if int(fx.get('k', 0)) % 2 else np.array(steps, dtype=int)
     else:  # date: all steps whose time point is not after the date
         d = tg.timepoints[k]
         I = d
